@@ -5,6 +5,8 @@ import (
 	"errors"
 	"fmt"
 	"github.com/celestiaorg/go-header/store"
+	ds "github.com/ipfs/go-datastore"
+	contextds "github.com/ipfs/go-datastore/context"
 	"os"
 	"strconv"
 	"strings"
@@ -272,6 +274,17 @@ func runStoreProp(prop, tier string, r *rng) {
 		flushInHandlerCase(prop, 3, 4, 8, 8) // `more` = batch size: the handler's own append forces a flush
 		flushInHandlerCase(prop, 6, 4, 6, 6)
 		flushInHandlerCase(prop, 5, 6, 4, 4)
+		flushInHandlerCaseOn(prop, "ctx", 0, 3, 4, 8, 8)
+		flushInHandlerCaseOn(prop, "ctx", 0, 6, 4, 6, 6)
+		flushInHandlerCaseOn(prop, "ctx", 0, 7, 8, 6, 6) // heights after the handler's flush are still in the range
+		flushInHandlerCaseOn(prop, "plain", 0, 7, 8, 6, 6)
+		flushInHandlerCaseOn(prop, "plain", 2, 7, 8, 6, 6) // ... and that flush fails twice before it goes through
+		flushInHandlerCaseOn(prop, "ctx", 2, 7, 8, 6, 6)
+		// the range's headers are all still pending when the deletion starts; the flush lands in the middle of it
+		flushInHandlerCaseOn(prop, "ctx", 0, 7, 8, 12, 12)
+		flushInHandlerCaseOn(prop, "plain", 0, 7, 8, 12, 12)
+		flushInHandlerCaseOn(prop, "ctx", 2, 7, 8, 12, 12)
+		flushInHandlerCaseOn(prop, "plain", 2, 7, 8, 12, 12)
 	}
 	if prop == "C08" || prop == "C14" {
 		for round := 0; round < 8; round++ { // which worker gets which height is up to the scheduler
@@ -488,10 +501,20 @@ func queuedDeleteCase(prop string, n0, n1, n2, a, b int) {
 // LAST height of the range appends more headers and syncs, so that the flush loop writes the pending batch to the
 // datastore while that header's handler is in flight. Afterwards nothing of the range may be left anywhere.
 func flushInHandlerCase(prop string, n, to, more, batch int) {
+	flushInHandlerCaseOn(prop, "plain", 0, n, to, more, batch)
+}
+
+// flavour: plain | ctx (context-aware datastore with write batches and read transactions); failCommits: that many batch
+// commits of the flush triggered inside the handler fail first (the flush loop retries)
+func flushInHandlerCaseOn(prop string, flavour string, failCommits int, n, to, more, batch int) {
 	ctx := context.Background()
 	chain := vhdr.Chain("A", n+more+2, storeT0, int64(time.Second), 0)
 	core := memds.NewCore()
-	st, err := store.NewStore[*vhdr.Header](&memds.Plain{C: core}, store.WithWriteBatchSize(batch))
+	var dsi ds.Batching = &memds.Plain{C: core}
+	if flavour == "ctx" {
+		dsi = contextds.WrapDatastore(&memds.Txn{Plain: memds.Plain{C: core}}).(ds.Batching)
+	}
+	st, err := store.NewStore[*vhdr.Header](dsi, store.WithWriteBatchSize(batch))
 	if err != nil {
 		panic(err)
 	}
@@ -504,12 +527,26 @@ func flushInHandlerCase(prop string, n, to, more, batch int) {
 	var mu sync.Mutex
 	calls := map[uint64]int{}
 	var once sync.Once
+	trigger := uint64(to - 1)
+	if to >= 6 {
+		trigger = uint64(to - 4) // the flush happens in the MIDDLE of the range: later heights of it were pending before
+	}
 	st.OnDelete(func(ctx context.Context, h uint64) error {
 		mu.Lock()
 		calls[h]++
 		mu.Unlock()
-		if h == uint64(to-1) {
+		if h == trigger {
 			once.Do(func() {
+				if failCommits > 0 {
+					left := failCommits
+					core.Fault = func(w memds.Write) bool {
+						if w.Batch && left > 0 && len(w.Ops) > 2 { // the flush loop's commits (not the deleter's)
+							left--
+							return true
+						}
+						return false
+					}
+				}
 				_ = st.Append(ctx, chain[n:n+more]...)
 				c, cancel := context.WithTimeout(context.Background(), 2*time.Second)
 				_ = st.Sync(c)
@@ -564,7 +601,8 @@ func flushInHandlerCase(prop string, n, to, more, batch int) {
 		}
 		return strings.Join(xs, ",")
 	}
-	emit("%s kind=flushinhandler n=%d to=%d more=%d batch=%d => delete=%s head=%d tail=%d stored=%s keys=%s second=%s handledTwice=%d", prop, n, to, more, batch,
+	core.Fault = nil
+	emit("%s kind=flushinhandler flavour=%s failcommits=%d n=%d to=%d more=%d batch=%d => delete=%s head=%d tail=%d stored=%s keys=%s second=%s handledTwice=%d", prop, flavour, failCommits, n, to, more, batch,
 		errs(e1), hd, tl, js(stored), js(keys), errs(e2), twice)
 }
 
